@@ -1,6 +1,10 @@
 //! Value-chain harness (C13).
 //! Sequential case:  case <id> SEQ <k> (<kind> <n> <op>..)*      kind: o = original, c = clone of the previous instance
-//!                   op: r:<ty>:<v> = make_ref, m:<ty>:<v> = make_mut, l = observe live count
+//!                         upper case (O / C): the instance is finally dropped WHILE ITS THREAD IS UNWINDING from a panic
+//!                   op: r:<ty>:<v> = make_ref, m:<ty>:<v> = make_mut, l = observe live count,
+//!                       h:<ty>:<v> = lend through the delegation helper (a `&self` provided method whose body calls a required
+//!                                    method answered with `u.make_ref(..)`: the value lives in the helper's chain),
+//!                       t = call a `&mut self` provided method (goes through AsMut<DefaultImplDelegator>)
 //!                   ty: 0 = counted value A, 1 = counted value B (same layout, other type), 2 = zero-sized guard with Drop
 //!   sessions run one after the other; all instances are dropped at the end (clones first) and the live count is printed.
 //! Threaded case:    case <id> TH <k> (<n> <v>..)* S <len> <tid>..   threads share one &Unimock and make_ref their values (type 0)
@@ -14,6 +18,11 @@ use std::sync::atomic::{AtomicIsize, Ordering::SeqCst};
 use unimock::*;
 
 static LIVE: AtomicIsize = AtomicIsize::new(0);
+/// live count at the start of the current case: a case that leaks must not shift the counts of the following ones
+static BASE: AtomicIsize = AtomicIsize::new(0);
+fn live() -> isize {
+    LIVE.load(SeqCst) - BASE.load(SeqCst)
+}
 
 macro_rules! counted {
     ($name:ident) => {
@@ -48,6 +57,36 @@ impl Drop for Guard {
     }
 }
 
+/// lending through the delegation helper: the provided methods run their default bodies on the helper, whose
+/// required methods are answered by lending a fresh value from the mock instance the answer function is handed
+#[unimock(api = HMock)]
+pub trait H {
+    fn req_a(&self, v: u64) -> &ValA;
+    fn req_b(&self, v: u64) -> &ValB;
+    fn via_a(&self, v: u64) -> &ValA {
+        self.req_a(v)
+    }
+    fn via_b(&self, v: u64) -> &ValB {
+        self.req_b(v)
+    }
+    fn touch(&mut self) -> u64 {
+        7
+    }
+}
+
+fn new_original() -> Unimock {
+    let u = Unimock::new((
+        HMock::req_a.each_call(matching!(_)).answers(&|u, v| u.make_ref(ValA::new(v))),
+        HMock::req_b.each_call(matching!(_)).answers(&|u, v| u.make_ref(ValB::new(v))),
+    ));
+    // verification is not what this harness is about: both clauses are used once up front (through a short-lived
+    // clone, whose chain takes the two values with it) so that the original's teardown has nothing to report
+    let c = u.clone();
+    let _ = (H::req_a(&c, 0).0, H::req_b(&c, 0).0);
+    drop(c);
+    u
+}
+
 enum Held<'u> {
     A(&'u ValA),
     B(&'u ValB),
@@ -69,6 +108,8 @@ enum Op {
     Ref(u8, u64),
     Mut(u8, u64),
     Live,
+    Help(u8, u64),
+    Touch,
 }
 
 fn parse_op(s: &str) -> Op {
@@ -77,6 +118,8 @@ fn parse_op(s: &str) -> Op {
         "r" => Op::Ref(p[1].parse().unwrap(), p[2].parse().unwrap()),
         "m" => Op::Mut(p[1].parse().unwrap(), p[2].parse().unwrap()),
         "l" => Op::Live,
+        "h" => Op::Help(p[1].parse().unwrap(), p[2].parse().unwrap()),
+        "t" => Op::Touch,
         _ => panic!("bad op {s}"),
     }
 }
@@ -97,10 +140,17 @@ fn shared_phase(u: &Unimock, ops: &[Op], out: &mut impl Write) -> usize {
                     1 => Held::B(u.make_ref(ValB::new(v))),
                     _ => Held::G(u.make_ref(Guard::new())),
                 });
-                writeln!(out, "[{}] live={}", show_all(&held), LIVE.load(SeqCst)).unwrap();
+                writeln!(out, "[{}] live={}", show_all(&held), live()).unwrap();
             }
-            Op::Live => writeln!(out, "[{}] live={}", show_all(&held), LIVE.load(SeqCst)).unwrap(),
-            Op::Mut(..) => break,
+            Op::Help(ty, v) => {
+                held.push(match ty {
+                    0 => Held::A(H::via_a(u, v)),
+                    _ => Held::B(H::via_b(u, v)),
+                });
+                writeln!(out, "[{}] live={}", show_all(&held), live()).unwrap();
+            }
+            Op::Live => writeln!(out, "[{}] live={}", show_all(&held), live()).unwrap(),
+            Op::Mut(..) | Op::Touch => break,
         }
         k += 1;
     }
@@ -129,7 +179,11 @@ fn session(u: &mut Unimock, ops: &[Op], out: &mut impl Write) {
                         "2:0".to_string()
                     }
                 };
-                writeln!(out, "[{shown}] live={}", LIVE.load(SeqCst)).unwrap();
+                writeln!(out, "[{shown}] live={}", live()).unwrap();
+                k += 1;
+            } else if let Op::Touch = ops[k] {
+                let r = H::touch(u);
+                writeln!(out, "[touch{r}] live={}", live()).unwrap();
                 k += 1;
             }
         }
@@ -139,21 +193,33 @@ fn session(u: &mut Unimock, ops: &[Op], out: &mut impl Write) {
 fn run_seq(t: &mut std::str::SplitWhitespace, out: &mut impl Write) {
     let n: usize = t.next().unwrap().parse().unwrap();
     let mut insts: Vec<Unimock> = vec![];
+    let mut unwinding: Vec<bool> = vec![];
     for _ in 0..n {
         let kind = t.next().unwrap();
+        unwinding.push(kind == "O" || kind == "C");
+        let kind = kind.to_lowercase();
+        let kind = kind.as_str();
         let nops: usize = t.next().unwrap().parse().unwrap();
         let ops: Vec<Op> = (0..nops).map(|_| parse_op(t.next().unwrap())).collect();
         let mut u = match kind {
-            "o" => Unimock::new(()),
+            "o" => new_original(),
             _ => insts.last().expect("clone of what").clone(),
         };
         session(&mut u, &ops, out);
         insts.push(u);
     }
-    writeln!(out, "end live={}", LIVE.load(SeqCst)).unwrap();
+    writeln!(out, "end live={}", live()).unwrap();
     while let Some(u) = insts.pop() {
-        drop(u);
-        writeln!(out, "dropped live={}", LIVE.load(SeqCst)).unwrap();
+        if unwinding.pop().unwrap() {
+            // the instance goes out of scope because of a panic in the code under test: its Drop runs during unwinding
+            let _ = std::panic::catch_unwind(std::panic::AssertUnwindSafe(move || {
+                let _owned = u;
+                panic!("code under test failed");
+            }));
+        } else {
+            drop(u);
+        }
+        writeln!(out, "dropped live={}", live()).unwrap();
     }
 }
 
@@ -204,9 +270,9 @@ fn run_threads(t: &mut std::str::SplitWhitespace, out: &mut impl Write) {
     for l in results {
         writeln!(out, "{l}").unwrap();
     }
-    writeln!(out, "end live={}", LIVE.load(SeqCst)).unwrap();
+    writeln!(out, "end live={}", live()).unwrap();
     drop(u);
-    writeln!(out, "dropped live={}", LIVE.load(SeqCst)).unwrap();
+    writeln!(out, "dropped live={}", live()).unwrap();
 }
 
 /// free-running real threads (no scheduler): a search aid, not a proof
@@ -261,6 +327,7 @@ fn run_stress(t: &mut std::str::SplitWhitespace, out: &mut impl Write) {
 }
 
 fn main() {
+    std::panic::set_hook(Box::new(|_| {}));
     unimock::verif::sync::register(scheduler::hook);
     let args: Vec<String> = std::env::args().collect();
     let input: Box<dyn BufRead> = Box::new(std::io::BufReader::new(
@@ -276,6 +343,7 @@ fn main() {
         }
         let id = t.next().unwrap();
         writeln!(out, "case {id}").unwrap();
+        BASE.store(LIVE.load(SeqCst), SeqCst);
         match t.next() {
             Some("SEQ") => run_seq(&mut t, &mut out),
             Some("TH") => run_threads(&mut t, &mut out),
